@@ -212,7 +212,9 @@ class BoundCallable:
         arg = next(iter(known.values())) if known else (args[0] if args else None)
 
         funname = getattr(fun, '__name__', None)
-        if funname in vars(builtins):
+        if funname is not None and vars(builtins).get(funname) is fun:
+            # note: the builtin itself (int, len), not an action that
+            #   happens to be called like one (a rule named 'sum')
             return ActualArguments(args=[arg])
 
         declared = inspect.signature(fun).parameters
